@@ -21,6 +21,9 @@ CLAIMS = {
  "C19": dict(design="5/C19", tech=E1 + "; symbolic id-membership bits",
    text="Every suite tree up to a node/depth bound (pre-order opcode lists; 4 leaf kinds incl. duplicate ids, 4 suite kinds, empty suites) is built and iterate_tests / sorted_tests / filter_by_ids (ids as a container with symbolic membership bits) / TestProgram --list and --load-list (in-process) are compared with reference flatten, sort and filter written from the statement; exhaustive within the bound.",
    note="TestProgram is driven in-process with a stub loader; a real temporary file carries the id list."),
+ "C17": dict(design="5/C17", tech=E1,
+   text="Every well-formed history of <=4 (quick) / <=6 (thorough) calls over {startTestRun, startTest, tags(+/-a), tags(+/-b), startTest-less addSkip+stopTest, outcome+stopTest} is replayed into 8 reporters (TestResult, ExtendedToOriginalDecorator over three flavours, ThreadsafeForwardingResult, MultiTestResult, Tagger, ExtendedToStreamDecorator->StreamToExtendedDecorator): current_tags after every call equals a reference scoped set, and the tags observed by the wrapped result / final status events at each outcome equal the reporter's; PlaceHolder tag replay. Exhaustive within the bound.",
+   note="Two tags only in E1; the wrapped extended result is a double that records its current tags at each outcome."),
  "C18": dict(design="5/C18", tech=E1,
    text="Routing: every rule set of <=3 (quick) / <=4 rules with distinct keys x fallback x event (route code, test id) is run on the real StreamResultRouter with identity tokens in all other fields; start/stop: every sequence of <=5/6 steps over {startTestRun, stopTestRun, add_rule +/- do_start_stop_run} x fallback mode; StreamToQueue push followed by consuming-rule pop (also nested) restores the original route code. Exhaustive within the bound.",
    note="Finite alphabets of route codes/ids in E1; duplicate keys are documented as undefined and excluded."),
